@@ -221,6 +221,20 @@ class G(Base):
     def q(self):
         hit("q"); return self.a * 2
 ''', sources={"a": "int", "b": "int"}, derived={"q": (["a"], lambda s: s["a"] * 2, "cached")}),
+    # attribute names that CONTAIN the names of their dependants (`p` in `raw_p`, `p` and `q` in `pq`): names are compared whole
+    "nested_names": dict(src='''
+@spec_class
+class G:
+    raw_p: int = 1
+    pq: int = 10
+    @spec_property(cache=True, invalidated_by=["raw_p"])
+    def p(self):
+        hit("p"); return self.raw_p * 2
+    @spec_property(cache=True, invalidated_by=["pq", "p"])
+    def q(self):
+        hit("q"); return self.p + self.pq
+''', sources={"raw_p": "int", "pq": "int"}, derived={"p": (["raw_p"], lambda s: s["raw_p"] * 2, "cached"),
+                                                        "q": (["pq", "p"], lambda s: s["p"] + s["pq"], "cached")}),
     "failing_factory": dict(src='''
 FAIL = {"on": False}
 def fac():
@@ -363,7 +377,7 @@ class G:
         hit("p"); return self.a * 2
 ''', sources={"a": "int", "b": "int"}, derived={"p": (["a"], lambda s: s["a"] * 2, "cached_nooverride")}),
 }
-SRC_DEFAULT = {"a": 1, "b": 10, "c": 3, "u": 5, "xs": [1]}
+SRC_DEFAULT = {"a": 1, "b": 10, "c": 3, "u": 5, "xs": [1], "raw_p": 1, "pq": 10}
 
 
 _NS = {}
